@@ -200,6 +200,30 @@ def execute(p: Dict[str, Any]) -> Dict[str, Any]:
                                     age = (now_dt - t2core._parse_iso(ts, now_dt)).total_seconds() / 86400.0
                                     if age > days + 1e-9:
                                         bad("outside-recency-window", "hit %s is %.2f days old, window %d; %s" % (i, age, days, ctxs))
+                    if tiers == ["cluster_semantic"]:
+                        # top clusters: every hit's cluster must be among the top-m clusters (by centroid cosine over the
+                        # owner-visible episodes); not judged when scores tie at the boundary
+                        from clematis.memory.index import _stable_cluster_id
+                        owner_q = ctx.agent_id if scope == "agent" else ("world" if scope == "world" else None)
+                        vis = [e for e in idx._eps if owner_q is None or e.get("owner") == owner_q]
+                        by: Dict[str, List[Any]] = {}
+                        for e in vis:
+                            by.setdefault(_stable_cluster_id(e), []).append(e)
+                        cs = []
+                        for cid, items in by.items():
+                            vs = [np.asarray(it["vec_full"], dtype=np.float32) for it in items if it.get("vec_full") is not None]
+                            if vs:
+                                cs.append((_cos(qv, np.mean(np.stack(vs, axis=0), axis=0)), cid))
+                        cs.sort(key=lambda t: (-t[0], t[1]))
+                        m = int(cfg_t2.get("clusters_top_m", 3))
+                        top = {cid for _s, cid in cs[:m]}
+                        boundary_tie = len(cs) > m and abs(cs[m - 1][0] - cs[m][0]) <= 1e-6
+                        if not boundary_tie:
+                            stats["cluster_tier_checked"] = stats.get("cluster_tier_checked", 0) + 1
+                            for i in ids:
+                                e = eps.get(i)
+                                if e is not None and _stable_cluster_id(e) not in top:
+                                    bad("outside-top-clusters", "hit %s is in cluster %s, top-%d clusters are %s; %s" % (i, _stable_cluster_id(e), m, sorted(top), ctxs))
                     # ranking law on the list handed to the rerank layers; permutation law on what they return
                     if "in" in qlog:
                         rk = cfg_t2.get("ranking", {}) or {}
